@@ -418,6 +418,8 @@ class Identity(ConstantValue):
 
     def __getitem__(self, key):
         """Get an item."""
+        if not isinstance(key, tuple):
+            return Expr.__getitem__(self, key)
         if len(key) != 2:
             raise ValueError("Size mismatch for Identity.")
         if all(isinstance(k, int | FixedIndex) for k in key):
@@ -464,6 +466,8 @@ class PermutationSymbol(ConstantValue):
 
     def __getitem__(self, key):
         """Get an item."""
+        if not isinstance(key, tuple):
+            return Expr.__getitem__(self, key)
         if len(key) != self._dim:
             raise ValueError("Size mismatch for PermutationSymbol.")
         if all(isinstance(k, int | FixedIndex) for k in key):
